@@ -224,6 +224,8 @@ def t2(prog, rep):
     # the decoders reduce the table position with the matching mask
     for up, fn, mask in (("util/hexify.c", "unhexify", 0x0f), ("util/b64encode.c", "b64decode", 0x3f)):
         f = prog.func(up, fn)
+        if not rep.names(f, "pos"):
+            continue
         masks = [e for e in f.all_elems() if e.cls == "BinaryOperator" and e.op == "&" and e.kid(1) is not None and e.kid(1).strip().val is not None and norm(e.kid(0))[0] == "v" and norm(e.kid(0))[1] == "pos"]
         rep.check(bool(masks) and all(m.kid(1).strip().val == mask for m in masks), "T2-alphabet", "%s reduces the table position with & %#x" % (fn, mask), f.loc,
                   "found %s" % [hex(m.kid(1).strip().val) for m in masks], function=fn, construct="mask")
